@@ -181,6 +181,7 @@ func cmdCheck(args []string) int {
 		return 3
 	}
 	os.Setenv("VERIF_BUILD_DIR", b.dir)
+	os.Setenv("VERIF_DIR", verifDir)
 	buildS := time.Since(t0).Seconds()
 	// the instances of all providers form one index space
 	var ls listing
